@@ -403,11 +403,9 @@ class TTCFG(
             size, future = state[1][1]
             if size > max_size:
                 return False, (0, 0)
-            if not derivation.type.is_instance(Arrow):
-                if future > 0:
-                    return size + future <= max_size, (size + 1, future - 1)
-                return size + 1 + future <= max_size, (size + 1, future)
-            nargs = len(derivation.type.arguments())
+            # number of arguments consumed here: a primitive used as a value of
+            # an arrow type takes fewer arguments than its type has
+            nargs = len(derivation.type.ends_with(state[0]) or [])
             if future > 0:
                 return size + nargs + future <= max_size, (size + 1, future + nargs - 1)
             return size + nargs + 1 + future <= max_size, (size + 1, future + nargs)
